@@ -718,3 +718,59 @@ def reserved_slot_rule(chk, cid, prog, p, cfgname):
     if n < 2:
         raise AnalysisBroken('%s: %d reserved slots found, expected 2' % (f.name, n))
     return n
+
+
+def droprow_pointer_fixup_rule(chk, cid, prog, p, cfgname):
+    """ilu_?drop_row removes r rows from the supernode first..last (n = last - first + 1 columns).  Every column of the supernode then ends r
+    entries earlier, so the end pointers of all n columns - xlusup[first+1 .. last+1], xlsub likewise - are pulled back.  The loop that does it
+    must run over exactly n pointers: its trip count, as a linear form, equals the definition of n.  A bound that depends on whether a
+    column follows (lastc) leaves the last end pointer stale exactly when the supernode is followed by a relaxed one: value counts and row
+    counts of L then disagree although every solve still works."""
+    from ..facts import strip, loc, root_ref
+    from ..ir import pretty
+    from ..run import AnalysisBroken
+    from .expand import _lin
+    f = prog.func('ilu_%sdrop_row' % p)
+    if f is None:
+        raise AnalysisBroken('ilu_%sdrop_row not found' % p)
+    chk.saw(unit=f.unit, func=f.unit + ':' + f.name)
+    ndef = None
+    for x in f.body.walk():
+        if x.k == 'Assign' and x.a['op'] == '=' and strip(x.c[0]).k == 'Ref' and strip(x.c[0]).a.get('name') == 'n':
+            ndef = _lin(x.c[1])
+        if x.k == 'Var' and x.a.get('name') == 'n' and x.c:
+            ndef = _lin(x.c[0])
+    if ndef is None:
+        raise AnalysisBroken('%s: definition of n (number of columns of the supernode) not found' % f.name)
+    n = 0
+    for lp in f.body.walk():
+        if lp.k != 'For' or lp.c[0] is None or lp.c[1] is None:
+            continue
+        hits = [x for x in lp.c[3].walk() if x.k == 'Assign' and x.a['op'] == '-=' and strip(x.c[0]).k == 'Index' and root_ref(x.c[0]) is not None
+                and root_ref(x.c[0]).a.get('name') in ('xlusup', 'xlsub')]
+        if not hits:
+            continue
+        i0, c0 = strip(lp.c[0]), strip(lp.c[1])
+        if i0.k != 'Assign' or c0.k != 'Binary' or c0.a['op'] not in ('<=', '<'):
+            continue
+        lo, hi = _lin(i0.c[1]), _lin(c0.c[1])
+        if lo is None or hi is None:
+            continue
+        trip = dict(hi)
+        for k_, c in lo.items():
+            trip[k_] = trip.get(k_, 0) - c
+        if c0.a['op'] == '<=':
+            trip[1] = trip.get(1, 0) + 1
+        trip = {k_: c for k_, c in trip.items() if c}
+        n += 1
+        inst = '%s:end-pointers-of-all-columns-pulled-back' % f.name
+        if trip == ndef:
+            chk.ok(cid, inst, sample='for (%s; %s; ..): as many pointers as the supernode has columns' % (pretty(i0), pretty(c0)))
+        else:
+            chk.violate(cid, inst, loc(f, lp), f.name,
+                        'the loop `for (%s; %s; ..)` that pulls the column end pointers back does not run over exactly n = last - first + 1 pointers: the end '
+                        'pointer of the last column stays where it was for some inputs, and nzval_colptr / rowind_colptr of L no longer agree with the row '
+                        'count of the supernode' % (pretty(i0), pretty(c0)), cfgname=cfgname)
+    if n < 1:
+        raise AnalysisBroken('%s: pointer fix-up loop not found' % f.name)
+    return n
